@@ -335,6 +335,20 @@ func init() {
 	A["vEq"] = func(p *Path, fr *frame, fn *ssa.Function, args []Value, pos token.Pos) Value {
 		return p.deepEq(args[0], args[1], 0)
 	}
+	// vConcretize(x, lo, hi): case split over the feasible values of x in [lo,hi]; values outside
+	// make the path inconclusive (never silently dropped).
+	A["vConcretize"] = func(p *Path, fr *frame, fn *ssa.Function, args []Value, pos token.Pos) Value {
+		lo, hi := args[1].(*Term), args[2].(*Term)
+		if !lo.c || !hi.c {
+			p.abort("inconclusive", "HARNESS-ERROR: vConcretize bounds must be concrete")
+		}
+		t := args[0].(*Term)
+		if t.c {
+			return t
+		}
+		v := p.concInt(fr, t, types.Typ[types.Int], int(sext64(lo.u, 64)), int(sext64(hi.u, 64)), pos, "vConcretize")
+		return BVConst(uint64(v), 64)
+	}
 	A["vLastPanic"] = func(p *Path, fr *frame, fn *ssa.Function, args []Value, pos token.Pos) Value {
 		return StrConst(p.lastPanic)
 	}
